@@ -513,10 +513,21 @@ class Lexer:
         ws = "WS"
         nl = "\n"
         newline_types = frozenset({"NEWLINE", "NL", "COMMENT"})
+        srclines = None
         for token in self:
-            if token.type == ws:
+            if token.type == ws or token.type in ("INDENT", "DEDENT"):
+                # blanks at either end of a line separate nothing
                 continue
-            elif token.type in newline_types:
+            if token.type in ("AND", "OR"):
+                # ``&&`` and ``||`` are lexed as the keywords ``and`` / ``or``;
+                # an element is the text that was written
+                if srclines is None:
+                    srclines = s.split(nl)
+                if 0 < token.lineno <= len(srclines):
+                    written = srclines[token.lineno - 1][token.lexpos : token.lexpos + 2]
+                    if written in ("&&", "||"):
+                        token.value = written
+            if token.type in newline_types:
                 # After a newline token, force the next token to start a
                 # new element by setting c to an impossible value.
                 l = token.lineno + token.value.count(nl)
